@@ -56,6 +56,22 @@ CLAIMED = {
         technique="TLA+ Statements.tla (effect of INSERT/DELETE/CREATE/DROP/CONSTRUCT/DECONSTRUCT incl. reification with fresh blank nodes) ; sequences of statements executed as text on one live store; full listing of every graph after each statement validated by TLC (StatementTrace.tla)",
         text="60 (quick) / 1500 (thorough) seeded sequences of 10-12 statements over 3 graphs + an unknown name; after every statement the complete listing of all graphs is recorded structurally and TLC checks it equals the previous listing transformed by the statement: targets exactly +/- the listed or instantiated triples (templates x solution rows via the Solutions oracle), fresh blank node per reified row modulo renaming, non-targets untouched, rejected statements change nothing.",
         note="Reification templates write only into ?g3, which is never a FROM graph. A statement failing during execution may leave targets either way."),
+    "C17": dict(cat="model_checking", ref="DESIGN 5/C17",
+        technique="GrammarData.tla generated per run from grammar.BQL()/SemanticBQL(); LL1.tla table facts evaluated completely by TLC; witness sentences generated by the TLC derivation machine (LL1Derive), parsed by the real parser with ProcessStart probes and validated by TLC (ParserTrace.tla) against the predictive machine LL1!Run",
+        text="All table facts (first elements are tokens and pairwise distinct per rule, empty alternative last, referenced rules exist, reachable, productive by least fixpoint, plain = semantic table) are checked for the whole table of the current tree (73 rules / 178 alternatives). For every expansion step of the derivation machine (stack <= 20/26, both alternative orders) a sentence is concretised, lexed and parsed by the real parser; TLC requires accept = Accepts(kinds) and the probed (rule, alternative) sequence = the alternatives LL1!Run takes; every alternative (also the empty ones) must be taken by an accepted run. Complete for the table; witnesses bounded by the stack bound.",
+        note="Trusted: TLC, grammardump (exported accessors; element is a token iff Symbol()==''), harness/gram concretiser (only proposes texts; judged on kinds as lexed; a token kind it cannot write raises INFRA, not a verdict)."),
+    "C18": dict(cat="model_checking", ref="DESIGN 5/C18",
+        technique="LL1.tla predictive recogniser (Accepts) on the generated table as oracle; TLC-generated sentences, systematic (expected token x offered kind) substitutions, mutations, trailing tokens and all kind sequences <= 3 parsed by the real plain and semantic parsers; histories (every cut position x probes, random) on one parser vs a fresh one; all events validated by TLC (ParserTrace.tla); deviations attributed by rebuilding hook closures on the real code",
+        text="plain accept = Accepts(kinds as lexed) and semantic accept => Accepts for sentences, 10^4 substitutions/mutations, statements followed by more tokens and all token-kind sequences up to length 3 (quick: length 2 + 2% sample); the outcome and extracted meaning (type, graphs, data, clauses, filters, projections, group/order, HAVING tokens, bounds, limit, construct clauses) of a probe statement after every history (40/160 statements cut at every token, whole, random histories <= 6) equals its meaning on a fresh parser.",
+        note="Deviations are classified mechanically: AcceptsPrefix evaluated by TLC; closure family found by delta debugging on the real hooks. Probes whose fresh meaning is not deterministic are open. Trusted: TLC, harness/gram, meaning projection in parsedrv."),
+    "C16": dict(cat="model_checking", ref="DESIGN 5/C16",
+        technique="LexerStream.tla stream monitor (ordered non-overlapping substrings, one terminal token last, closed) model-checked on its own and used by TLC to validate token streams recorded from lexer.New (LexerTrace.tla), plus relational events SameKinds (case / white space variants) and OneToken (printed values)",
+        text="Every string of length <= 4/5 over a 12-symbol alphabet (22 621 / 271 453 inputs) with channel capacities 0,1,2,8, seeded random and mutated statements, grammar-generated statements with letter-case, white-space and compact-spacing variants, and ~490 printed nodes/predicates/bounds/literals/bindings/blank nodes built with the real constructors and printers; watchdog turns non-termination into an event. Exact tokenisation is deliberately not specified.",
+        note="Known findings: text ending in backslash, id starting with @[ or ^^type:, node type containing '>'. White space between a filter function and '(' is treated as part of the notation (the repository's tests require 'latest (' to be rejected). Values with embedded quotes are open."),
+    "C08": dict(cat="model_checking", ref="DESIGN 5/C08",
+        technique="RunTrace.tla outcome/goroutine monitor validating, by TLC, runs of the real pipeline (lexer -> semantic parser -> planner -> executor, as run.BQL) recorded in-process (recover, settled goroutine stacks filtered to badwolf/) and per child process (panics in other goroutines, log.Fatalf); inputs from the TLC derivation machine + hostile concretisations + all token-kind sequences <= 3 + random bytes; LexPipe.tla (lexer || channel || parser) model-checked for the leak predicate",
+        text="Every run must end in exactly one of table / error, never panic, time out (10 s watchdog, re-run alone) or kill the process, and leave no goroutine with engine frames. 1.5*10^4 (quick) / 3.3*10^5 (thorough) texts: grammar-generated statements with plain and hostile literals/nodes/predicates/bounds/times (one hostile token at a time and random), prefixes, prefix + one token, token mutations, statement + statement, all kind sequences up to length 3 (quick: 2% sample), random bytes and byte mutations, against a populated and an empty memory store.",
+        note="Level model_checking for the pipeline model and trace validation, exploration for raw bytes (evidence carries both key sets). Known findings: panics for blob literals shorter than 2 chars and for the anchor '\"' (value family). Driver failures are C20."),
 }
 
 PENDING_REASON = "not claimed yet: the TLA+ module and conformance driver for this property are designed (DESIGN 5) but not built/validated in this commit"
